@@ -193,16 +193,25 @@ def check_inst(where, exp, got):
 def well_formed(sc, procs, ents):
     if sc.mode == 'file' and any(p[0] in (0, 1) for p in procs):
         return False
-    ids, auto = [], 1
+    # identifiers: a generated one is the next of 1, 2, 3, … that no entity (with components) holds at that
+    # moment; an imposed one that an earlier entity of the list already holds merges two entries
+    ids, auto, held = [], 0, set()
     for (idtok, _), comps in zip(sc.ents, ents):
         ctypes = [c[0] for c in comps]
         if len(set(ctypes)) != len(ctypes):
             return False
         if idtok == '-':
-            ids.append(auto)
             auto += 1
+            while auto in held:
+                auto += 1
+            e = auto
         else:
-            ids.append(ent_id(idtok))
+            e = ent_id(idtok)
+            if e in held:
+                return False
+        if comps:
+            held.add(e)
+        ids.append(e)
     return len(set(ids)) == len(ids)
 
 
